@@ -34,7 +34,7 @@ class C27(Check):
                   "stub": ["socket module", "server (scripted listener)", "store clock advanced by the simulator"]}
     assumptions = ["a bare Client that loses an established connection is reopened by its owner; only failed attempts are its own job",
                    "bound = ceil((timeout + latency*dt)/dt) + 6 service rounds after the quiet point"]
-    required_probes = ["reconnected-after-loss", "reconnected-after-failed-attempts", "blackhole", "nonreconnectable-stays-down", "addresses-checked", "patron-sse", "patron-partial", "patron-plain", "nonreconnectable-stays-down-with-open-event-stream"]
+    required_probes = ["reconnected-after-loss", "reconnected-after-failed-attempts", "blackhole", "nonreconnectable-stays-down", "addresses-checked", "patron-sse", "patron-partial", "patron-plain", "nonreconnectable-stays-down-with-open-event-stream", "second-loss"]
     quick_runs = 20000
     thorough_runs = 1000000
     shrink_fields = ["faults", "schedule"]
@@ -86,7 +86,8 @@ class C27(Check):
                 "schedule": sched, "faults": faults,
                 # HTTP client only: a request is outstanding and the scripted server has answered it completely / partly / with
                 # an event stream that is still open when the connection is lost
-                "exchange": g.choice([None, "plain", "partial", "sse", "sse"]) if kind == "patron" else None}
+                "exchange": g.choice([None, "plain", "partial", "sse", "sse"]) if kind == "patron" else None,
+                "retry": g.choice(["same", "same", "half", "zero"]), "again": g.random() < 0.5}
 
     def execute(self, plan):
         from ioflo.aio.tcp import clienting
@@ -112,6 +113,8 @@ class C27(Check):
                     lst[0].close()
 
             exchange = plan.get("exchange")
+            # the stream's retry field (milliseconds) becomes the client's reconnection time: the configured timeout, half of it, or 0
+            retry_ms = int(timeout * 1000 * {None: 1, "same": 1, "half": 0.5, "zero": 0}[plan.get("retry")])
             inbuf = {}
 
             def server_accept():
@@ -140,7 +143,7 @@ class C27(Check):
                         elif exchange == "partial":
                             reply = b"HTTP/1.1 200 OK\r\nContent-Length: 10\r\n\r\nabc"
                         else:
-                            reply = (b"HTTP/1.1 200 OK\r\nContent-Type: text/event-stream\r\n\r\nretry: %d\n\nid: 7\ndata: a\n\n" % int(timeout * 1000))
+                            reply = (b"HTTP/1.1 200 OK\r\nContent-Type: text/event-stream\r\n\r\nretry: %d\n\nid: 7\ndata: a\n\n" % retry_ms)
                         try:
                             s.send(reply)
                         except OSError:
@@ -240,7 +243,10 @@ class C27(Check):
             up()
             net.quiesce_faults()
             lat = plan["latency"]
-            feasible = (lat + 1) * dt < timeout or lat == 0   # an attempt can complete before the client gives up on it
+            # an attempt can complete before the client gives up on it; once an event stream has named a reconnection time, that
+            # time is what the client gives an attempt
+            eff = min(timeout, retry_ms / 1000.0) if exchange == "sse" else timeout
+            feasible = (lat + 1) * dt < eff or lat == 0
             bound = 2 * (int(math.ceil(timeout / dt)) + lat + 6)
             h = get()
 
@@ -263,6 +269,33 @@ class C27(Check):
                         stable_from = rnd
                 else:
                     stable_from = None
+            h = get()
+            if (plan.get("again") and rec and feasible and kind != "client" and not out.violations and not state.get("ended")
+                    and stable_from is not None and stable_from <= bound and live(h)):
+                # a second loss after the recovery: the client must come back again (state carried over from the first recovery,
+                # e.g. a reconnection time taken from the event stream, must not disable it)
+                server_accept()
+                for sv in [x for x in accepted if not x.closed]:
+                    sv.abort()
+                net.deliver_all()
+                out.probe("second-loss")
+                stable2 = None
+                for rnd in range(bound + 4):
+                    net.deliver_all()
+                    server_accept()
+                    if not svc():
+                        break
+                    h = get()
+                    if live(h):
+                        if stable2 is None:
+                            stable2 = rnd
+                    else:
+                        stable2 = None
+                if not out.violations and not state.get("ended") and (stable2 is None or stable2 > bound):
+                    out.violate("not-reconnected", "%s reconnectable not connected within bound after a second loss" % kind,
+                                "stable_from=%r bound=%d rounds (timeout %s dt %s latency %s retry %s) connected=%s cutoff=%s"
+                                % (stable2, bound, timeout, dt, lat, plan.get("retry"), h.connected, h.cutoff))
+                stable_from = stable2 if stable2 is not None else stable_from
             h = get()
             tr.add("final", bool(h.connected), bool(h.cutoff), stable_from)
             if not out.violations and not state.get("ended"):
